@@ -170,7 +170,7 @@ TEMPLATES = {
             "function f(x) result(r)\n  integer :: x, r\n  r = x\nend function f", "integer function g(x)\n  integer x\n  g = x\nend function", "recursive pure subroutine rs(x)\n  integer, intent(in) :: x\nend subroutine",
             "block data bd\nend block data", "subroutine s2()\n  include 'inc.f90'\nend subroutine s2", "module m2\n  use tm, only: tt, h => host\nend module m2"],
     "PP": ["#define F(a,b) a+b\n  y = F(1,2)", "#define X 1\n#if X > 0 && defined(X)\n  y = 1\n#elif X\n#else\n#endif", "#ifdef X\n#endif", "#ifndef X\n  y = 2\n#endif", "#define X 2\n#undef X\n  y = X",
-           "#include \"x.h\"", "#define M(a) #a\n  y = M(b)", "#if defined(A) || (B == 2)\n#endif", "#define LONG 1 \\\n  + 2\n  y = LONG", "#define G(a,b,c,d,e,f,g,h) a\n  y = G(1,2,3,4,5,6,7,8)", "#if(defined(A))\n#endif"],
+           "#include \"x.h\"", "#define M(a) #a\n  y = M(b)", "#if defined(A) || (B == 2)\n#endif", "#define LONG 1 \\\n  + 2\n  y = LONG", "#define G(a,b,c,d,e,f,g,h) a\n  y = G(1,2,3,4,5,6,7,8)", "#if(defined(A))\n#endif", "#if HAVE_MPI && A\n  y = HAVE_MPI + A + X\n#endif\n  i = T"],
 }
 TOKEN_RE = re.compile(r"[A-Za-z_]\w*|\d+|=>|::|==|/=|<=|>=|\*\*|//|&&|\|\||\s+|.", re.S)
 REPL = [",", "(", ")", "=>", "::", "=", "%", "&", "'", "\"", ":", ";", "*", "1", "x", "!", "#", "/", "[", "]", ",,", "()", "(,", ",)"]
